@@ -163,7 +163,13 @@ def run(name, dom, rows, params, seed, forced=None, iters_cap=40):
                 m = mechs.load('aim')
                 mech = m.AIM(params['epsilon'], params['delta'], prng=(np.random if params.get('prng') else None), rounds=params.get('rounds'),
                              max_model_size=params.get('max_model_size', 80))
-                W = [(tuple(cl), 1.0) for cl in params['workload']]
+                wts = params.get('weights') or [1.0] * len(params['workload'])
+                W = [(tuple(cl), float(w)) for cl, w in zip(params['workload'], wts)]
+                if params.get('first_workload'):
+                    # an earlier run on the same object (its own budget, its own randomness, not audited): only the state it leaves counts
+                    rec0 = Recorder(seed + 7919, None, iters_cap)
+                    with patched(rec0):
+                        mech.run(data, [(tuple(cl), 1.0) for cl in params['first_workload']])
                 synth = mech.run(data, W)
             elif name == 'mwem':
                 m = mechs.load('mwem')
